@@ -19,7 +19,7 @@ LABELSETS = {
 LAYERS = ["a", "b", "c"]
 MD_KEYS = ["k", "col", "x"]
 MD_VALUES = [0, 1, 2, "r", "s", True, None, 1.5, [1, 2], [2, 1], {"z": 1}, "blue", 3, ["b", "a", "c"], "", False, [], {}, 0.0]
-CRIT_VALUES = [2, 3, "r", "s", "blue"]
+CRIT_VALUES = [2, 3, "r", "s", "blue", 0, ""]
 
 OPS = {
     "H": ["add_node", "add_nodes", "add_edge", "add_edges", "remove_edge", "remove_edges",
@@ -657,6 +657,8 @@ def run_world(pid, case, mode="refine", handlers=None, on_step=None):
             w.log.append([name, a, "deriv", info])
             oc = w.stats["outcomes"]
             oc[name + ":deriv"] = oc.get(name + ":deriv", 0) + 1
+            if on_step:
+                on_step(w, a, op, outcome, exc)
             continue
         if name == "ctor":
             outcome = model.apply(op)  # Ambiguous unless this is the pristine first object
